@@ -33,9 +33,26 @@ def dry_vs_real(rng, driver, vcs, license_fault=False):
         fl = c06.faults(pr)
         lic = [f for f in fl if f[1] == "LICENSE"]
         fault = rng.choice(lic) if (lic and (license_fault or rng.random() < 0.6)) else rng.choice(fl)
+    # a commit / tag message template that str.format cannot render (unknown placeholder, stray brace), in the config or on the command line:
+    # the real run fails on it before writing anything, so --dry must not exit 0 either
+    bad_msg = None
+    if vcs and not fault and rng.random() < 0.2:
+        bad = rng.choice(["bump version to {version}", "release {tag}", "bump to NEW {skip ci}", "NEW }", "{", "{0} {new_version}", "{new_version.x}"])
+        where = rng.choice(["cfg_commit", "cfg_tag", "cli_commit", "cli_tag"])
+        bad_msg = [where, bad]
+        if where == "cfg_commit":
+            extra += "\ncommit_message = %s" % __import__("json").dumps(bad)
+        elif where == "cfg_tag":
+            extra += "\ntag_message = %s" % __import__("json").dumps(bad)
+        elif where == "cli_commit":
+            args = args + ["--commit-message", bad]
+        else:
+            args = args + ["--tag-message", bad]
+        fault = ("bad_message", where, bad)
+        case["args"] = args
     case["fault"] = list(fault) if fault else None
     with rwcommon.setup(pr, extra, vcs) as p:
-        if fault:
+        if fault and fault[0] != "bad_message":
             import props.c06 as c06
             c06.apply_fault(pr, p, fault)
         before = p.snapshot()
